@@ -1,7 +1,8 @@
 (* C14 - a failing output sink is reported, never swallowed, and never corrupts the session. Statements only.
    okf : nat -> bool says whether the n-th sink call (write of a non-empty slice, or flush) succeeds; it is universally quantified.
    The sink log records failed attempts as SXW / SXF; `failed O` says whether the operations O contain one. *)
-From EC Require Import Base Model.Editor Model.Sink Model.Writer Model.Cli Proofs.SinkOk Proofs.FlushProofs Proofs.FaultProofs Proofs.ClassProofs.
+From EC Require Import Base Model.Input Model.Editor Model.History Model.Sink Model.Writer Model.Cli Spec.IdealEditor Spec.Session
+  Proofs.SinkOk Proofs.FlushProofs Proofs.FaultProofs Proofs.ClassProofs Proofs.SafetyProofs Proofs.SessionProofs Proofs.RecoveryProofs.
 
 Definition reports_failures (f : M cli unit) : Prop :=
   forall s r s', f s = (r, s') -> exists O, out (sk s') = out (sk s) ++ O /\
@@ -37,6 +38,24 @@ Print Assumptions C14_write_keeps_line.
 Theorem C14_set_prompt_keeps_line : forall okf p s r s', api_set_prompt okf p s = (r, s') -> ed s' = ed s /\ ig s' = ig s /\ hist s' = hist s.
 Proof. intros okf p. exact (Same_api_set_prompt okf p). Qed.
 Print Assumptions C14_set_prompt_keeps_line.
+
+(* (4) the CLI remains usable: after ANY sequence of API calls under ANY sink behaviour (failures once, repeatedly, permanently, at any
+   call) the state still represents an abstract session state whose line is exactly the text in the editor - which by C14_line_class is
+   the line as it was, as the key left it, or empty - ... *)
+Theorem C14_recovers : forall okf feats cs handler, cmdset_ok cs -> forall cp hcp pr calls, Forall call_ok calls ->
+  let s := fst (api_run okf feats cs handler (snd (api_build okf (cli_init cp hcp pr))) calls) in
+  exists a, SRel (cap (ed s)) (hcap (hist s)) s a /\ ibytes (aline a) = text (ed s) /\ aprompt a = prompt s.
+Proof. exact recovers. Qed.
+Print Assumptions C14_recovers.
+(* ... and from such a state, once the sink works, later input is decoded normally and every later Enter dispatches exactly what the
+   abstract session dispatches from that line (C01: the tokens of the line as edited from there on) *)
+Theorem C14_usable_again : forall feats cs handler, cmdset_ok cs -> forall s, CliInv s ->
+  exists a, ibytes (aline a) = text (ed s) /\ forall bs, bytes bs ->
+    let '(s', rs) := crun feats cs handler s bs in
+    let '(a', calls) := arun feats cs handler (cap (ed s)) (hcap (hist s)) a (snd (runa (ig s) bs)) in
+    Forall (fun x => x = Ok tt) rs /\ SRel (cap (ed s)) (hcap (hist s)) s' a' /\ hcalls s' = hcalls s ++ calls.
+Proof. exact usable_again. Qed.
+Print Assumptions C14_usable_again.
 
 (* non-vacuity: `echo a` Enter with the 3rd sink call of the Enter failing: Err, the line is cleared (not the tokenised buffer) *)
 Example C14_nonvacuous :
